@@ -910,6 +910,15 @@ func (e *Env) callExpr(n *ast.CallExpr) Val {
 			return boolVal(fmt.Sprintf("(forall ((%s Int)) %s)", bv, body))
 		}
 		return boolVal(fmt.Sprintf("(exists ((%s Int)) (and %s %s))", bv, tf, body))
+	case "allocated":
+		// allocated(x): the object x refers to (pointer, map, slice, channel) exists in the current state, i.e. it was
+		// allocated before this point (nil counts as allocated). In a loop invariant: "not created by a later iteration".
+		argc(1)
+		v := e.eval(n.Args[0])
+		if e.st == nil || e.st.mem == nil || e.specSites != nil {
+			specErrf("allocated() needs a program state")
+		}
+		return boolVal(lt(v.S[0], e.st.mem.alloc))
 	case "oncedone":
 		// oncedone(o): the sync.Once value o (a field or variable, not a copy) has already run its function
 		argc(1)
